@@ -397,6 +397,13 @@ def _boundary(P, B, D, exact):
         [P["nrows"], P["ncols"], P["nval"], il(cells), il(B["catchment_area_mask"])]
 
 
+def _area(P, B, D, exact):
+    return "area", [("flowdircode", "flowdircode"), ("flowdir", "flowdir"), ("idxinlets", "idxinlets"),
+                    ("idxcellsArea", "idxcells_area"), ("buffer1", "buffer1"), ("buffer2", "buffer2")], \
+        [P["nrows"], P["ncols"], P["nval"], P["ninlets"], P["idxoutlet"], il(B["flowdircode"]), il(B["flowdir"]),
+         il(B["idxinlets"])]
+
+
 BUILDERS = {
     "c_aggregate": _agg, "c_flathomogen": _hom, "c_islin": _islin, "c_eckhardt": _eck, "c_var2h": _var2h,
     "c_dateutils_add1month": _add1month, "c_dateutils_add1day": _add1day, "c_dateutils_getdate": _getdate,
@@ -410,11 +417,52 @@ BUILDERS = {
     "c_neighbours": _neighbours, "c_upstream": _upstream, "c_downstream": _downstream,
     "c_accumulate": _accumulate, "c_slope": _slope, "c_slice": _slice, "c_intersect": _intersect,
     "c_voronoi": _voronoi, "c_inside": _inside, "c_exclude_zero_area_boundary": _exclzero,
-    "c_delineate_river": _river, "c_delineate_boundary": _boundary, "c_delineate_flowpathlengths_in_catchment": _flowpath,
+    "c_delineate_river": _river, "c_delineate_boundary": _boundary, "c_delineate_area": _area, "c_delineate_flowpathlengths_in_catchment": _flowpath,
 }
 
 # kernels reachable from the API without footprint model (covered by the sanitizer oracle only)
-NO_MODEL = ["c_delineate_area", "c_dateutils_isleapyear"]
+NO_MODEL = ["c_dateutils_isleapyear"]
+
+
+# ---------------------------------------------------------------------------------------------
+# PyAlloc as observed: what the PYTHON wrappers establish about the arrays THEY allocate / validate, evaluated
+# on the shapes `S` (field `name_k`) and integer scalars `V` recorded at the Cython boundary. Mirrors the
+# hand-written `PyAlloc_*` of `Lemmas/C05Wrap.lean` plus the allocations the Cython asserts re-check.
+PYALLOC = {
+    "aggregate": lambda S, V: S["aggindex_0"] == S["inputs_0"] == S["outputs_0"] and S["iend_0"] == 1,
+    "flathomogen": lambda S, V: S["aggindex_0"] == S["inputs_0"] == S["outputs_0"],
+    "islin": lambda S, V: S["islin_0"] == S["data_0"],
+    "var2h": lambda S, V: S["varvalues_0"] == S["varsec_0"] and abs(V["hstartsec"]) <= 2 ** 62,
+    "eckhardt": lambda S, V: S["bflow_0"] == S["flow_0"],
+    "armodel_sim": lambda S, V: S["outputs_0"] == S["inputs_0"],
+    "armodel_residual": lambda S, V: S["residuals_0"] == S["inputs_0"],
+    "crps": lambda S, V: (S["obs_0"] == S["sim_0"] == S["weight_vector_0"] and S["sim_1"] >= 1 and
+                          V["use_weights"] == 0 and S["crps_decompos_0"] == 5 and
+                          (S["reliability_table_0"], S["reliability_table_1"]) == (S["sim_1"] + 1, 7)),
+    "ensrank": lambda S, V: S["fmat_0"] == S["fmat_1"] == S["ranks_0"] == S["sim_0"],
+    "ad_test": lambda S, V: S["outputs_0"] == 2,
+    "pareto_front": lambda S, V: S["isdominated_0"] == S["data_0"],
+    "coord2cell": lambda S, V: S["xycoords_1"] == 2 and S["idxcell_0"] == S["xycoords_0"] and V["nrows"] >= 0 <= V["ncols"],
+    "cell2coord": lambda S, V: (S["coords_0"], S["coords_1"]) == (S["idxcell_0"], 2),
+    "cell2rowcol": lambda S, V: (S["rowcols_0"], S["rowcols_1"]) == (S["idxcell_0"], 2),
+    "slice": lambda S, V: S["zslice_0"] == S["xyslice_0"],
+    "neighbours": lambda S, V: S["neighbours_0"] == 9,
+    "upstream": lambda S, V: (S["idxup_0"], S["idxup_1"]) == (S["idxdown_0"], 9) and
+    (S["flowdircode_0"], S["flowdircode_1"]) == (3, 3),
+    "downstream": lambda S, V: S["idxdown_0"] == S["idxup_0"] and (S["flowdircode_0"], S["flowdircode_1"]) == (3, 3),
+    "delineate_area": lambda S, V: S["idxcells_area_0"] == S["buffer1_0"] == S["buffer2_0"],
+    "delineate_boundary": lambda S, V: S["idxcells_area_0"] == S["buffer_0"] == S["idxcells_boundary_0"],
+    "exclude_zero_area_boundary": lambda S, V: S["xycoords_1"] == 2 and S["idxok_0"] == S["xycoords_0"],
+    "delineate_river": lambda S, V: (S["data_0"], S["data_1"]) == (S["idxcells_0"], 5) and S["npoints_0"] == 1,
+    "accumulate": lambda S, V: (S["accumulation_0"], S["accumulation_1"]) == (S["to_accumulate_0"], S["to_accumulate_1"]),
+    "intersect": lambda S, V: (S["npoints_0"] == 1 and S["xy_area_1"] == 2 and
+                               S["idxcells_0"] == S["weights_0"] == V["nrows"] * V["ncols"]),
+    "voronoi": lambda S, V: S["weights_0"] == S["xypoints_0"],
+    "slope": lambda S, V: (S["slopeval_0"], S["slopeval_1"]) == (S["altitude_0"], S["altitude_1"]),
+    "points_inside_polygon": lambda S, V: S["inside_0"] == S["points_0"],
+    "delineate_flowpathlengths_in_catchment":
+        lambda S, V: (S["flowpathlengths_0"], S["flowpathlengths_1"]) == (S["idxcells_area_0"], 3),
+}
 
 
 def request(model, pairs, toks, extents):
